@@ -10,6 +10,7 @@ package nebula
 import (
 	"log/slog"
 	"net/netip"
+	"time"
 
 	"github.com/rcrowley/go-metrics"
 	"github.com/slackhq/nebula/firewall"
@@ -431,6 +432,81 @@ func specAddrLo(a netip.Addr) uint64 {
 	b := a.As16()
 	return uint64(b[8])<<56 | uint64(b[9])<<48 | uint64(b[10])<<40 | uint64(b[11])<<32 | uint64(b[12])<<24 | uint64(b[13])<<16 | uint64(b[14])<<8 | uint64(b[15])
 }
+
+// =====================================================================
+// C33 — timer wheel slot arithmetic
+// =====================================================================
+//
+// specWheelOK: the wheel geometry NewTimerWheel establishes (tick > 0,
+// span >= tick, wheelLen = span/tick + 2, cursor inside the wheel).
+// findWheel returns the slot whose forward distance from the cursor is
+// n+1 ticks, where n is the timeout (clamped to [tick, span]) rounded UP to
+// whole ticks: n*tick >= timeout > (n-1)*tick, stated with multiplications,
+// independently of the code's division. The distance lies in [2, wheelLen];
+// distance wheelLen is the cursor's own slot, reached after a full revolution.
+
+//@ func specWheelOK
+//@   pure
+//@ func specFwd
+//@   pure
+//@ func specClamp
+//@   pure
+
+func specWheelOK[T any](tw *TimerWheel[T]) bool {
+	return tw.tickDuration > 0 && tw.wheelDuration >= tw.tickDuration && tw.wheelDuration <= 1<<61 &&
+		tw.wheelLen == int(tw.wheelDuration/tw.tickDuration)+2 && 0 <= tw.current && tw.current < tw.wheelLen
+}
+
+// specFwd: number of ticks after which a cursor at cur reaches slot i (1..n).
+func specFwd(i, cur, n int) int {
+	if i > cur {
+		return i - cur
+	}
+	return i - cur + n
+}
+
+func specClamp(t, lo, hi time.Duration) time.Duration {
+	if t < lo {
+		return lo
+	}
+	if t > hi {
+		return hi
+	}
+	return t
+}
+
+//@ func (*TimerWheel).findWheel
+//@   props C33
+//@   abstractdiv
+//@   requires tw != nil && specWheelOK(tw)
+//@   ensures[slot]  0 <= i && i < tw.wheelLen
+//@   ensures[dist]  2 <= specFwd(i, tw.current, tw.wheelLen) && specFwd(i, tw.current, tw.wheelLen) <= tw.wheelLen
+//@   ensures[ticks] specFwd(i, tw.current, tw.wheelLen)-1 == int(specCeilDiv(specClamp(timeout, tw.tickDuration, tw.wheelDuration), tw.tickDuration))
+//@   assigns nothing
+
+// specCeilDiv(a, d) = ceil(a/d) for a >= 1, d >= 1; verifLemmaCeil states what
+// that means without division: it is the least n with n*d >= a.
+//@ func specCeilDiv
+//@   pure
+func specCeilDiv(a, d time.Duration) time.Duration { return (a-1)/d + 1 }
+
+//@ func verifLemmaCeil
+//@   props C33
+//@   requires 1 <= a && a <= 1<<61 && 1 <= d && d <= 1<<61
+//@   ensures[up]    specCeilDiv(a, d)*d >= a
+//@   ensures[tight] (specCeilDiv(a, d)-1)*d < a
+//@   ensures[range] 1 <= specCeilDiv(a, d) && specCeilDiv(a, d) <= a
+//@   assigns nothing
+func verifLemmaCeil(a, d time.Duration) {}
+
+//@ func NewTimerWheel
+//@   props C33
+//@   abstractdiv
+//@   requires min > 0 && max >= min && max <= 1<<61 && max/min <= 1<<30
+//@   ensures[wheel] result != nil && fresh(result) && specWheelOK(result) && result.current == 0 && result.tickDuration == min && result.wheelDuration == max
+//@   ensures[slots] len(result.wheel) == result.wheelLen && result.expired != nil && result.lastTick == nil && result.itemCache == nil
+//@   loop 1 invariant true
+//@   loop 1 assigns elems(tw.wheel)
 
 //@ func newCalculatedRemote
 //@   props C48
